@@ -776,6 +776,14 @@ func makeSizeGuarded(w *World, f *ssa.Function, mk *ssa.MakeSlice) (bool, string
 				continue
 			}
 			sx := x.str(a)
+			// T.NumIn()-1 in a function that is only ever called for variadic T (NumIn() >= 1)
+			if b, ok := unparen(a).(*ast.BinaryExpr); ok && b.Op == token.SUB && strings.HasSuffix(x.str(b.X), ".NumIn()") {
+				if tv, ok := info.Types[b.Y]; ok && tv.Value != nil && tv.Value.ExactString() == "1" {
+					if okV, _ := calledOnlyUnderIsVariadic(w, w.rootOf(fn)); okV {
+						continue
+					}
+				}
+			}
 			if !(strings.HasPrefix(sx, "len(") || strings.HasSuffix(sx, ".NumIn()") || strings.HasSuffix(sx, ".NumOut()") || strings.HasPrefix(sx, "cap(") || (strings.HasPrefix(sx, "(len(") && strings.Contains(sx, "+len("))) {
 				allLen = false
 			}
@@ -842,7 +850,7 @@ func c05BaseSignatures(c *Ctx, m *runnerModel) {
 			if !ok {
 				return true
 			}
-			if tv, ok := info.Types[cl]; ok && strings.HasPrefix(typeStr(tv.Type), "map[reflect.Kind]func(") {
+			if tv, ok := info.Types[cl]; ok && strings.HasPrefix(structuralTypeStr(tv.Type), "map[reflect.Kind]func(") {
 				for _, el := range cl.Elts {
 					if kv, ok := el.(*ast.KeyValueExpr); ok {
 						accepted[reflectKindName(info, kv.Key)] = true
